@@ -622,7 +622,7 @@ MECH_DEVIATIONS = {
     "FixedCount": ("CppCountInv", {"read_rows"}, dict(ChunkIds={"a", "n"}, Sels={"all"})),
     "FixedMissing": (None, {"unexpected_error"}, dict(ChunkIds={"a"}, Sels={"all"})),
     # one object used for a second file: open 'w'; write; open 'w' again; write
-    "FixedClose": ("ClosedInv", {"file_state"}, dict(ChunkIds={"a", "n"}, Sels={"all"}, deeper=1)),
+    "FixedClose": ("ClosedInv", {"file_state"}, dict(ChunkIds={"a", "n"}, Sels={"all"}, Delims={"none"}, deeper=1)),
     # create (3 rows); open 'r+'; partial read; write: the rows must land at the end of the file
     # (and close, after which the file is judged: one call deeper)
     "FixedSeek": ("StreamInv", {"rows", "stored_count", "file_state"}, dict(ChunkIds={"b"}, Sels={"all", "first", "cols"}, deeper=1)),
